@@ -54,12 +54,20 @@ func VerifC19Proxy() {
 	}
 	// the application behind the proxy
 	appCookies := rt.Choose("app.cookies", 3)
+	createdByWrite := false
 	upstream := 0
 	var posAtArrival, posAfterWrite ltx.Pos
 	rt.Stub("(*net/http.Transport).RoundTrip", func(t *http.Transport, req *http.Request) (*http.Response, error) {
 		upstream++
 		posAtArrival = db.Pos()
 		if req.Method != "GET" && req.Method != "HEAD" && role == 0 && rt.Bool("write.commits") {
+			if s.DBName == "otherdb" {
+				// the tracked database does not exist yet: this very write creates it and commits to it
+				ndb, cerr := store.CreateDBIfNotExists("otherdb")
+				rt.Check(cerr == nil, "harness: application creates the tracked database")
+				db = ndb
+				createdByWrite = true
+			}
 			litefs.VerifSetPos(db, uint64(db.Pos().TXID)+1, rt.U64("write.chk")) // the application's write commits
 		}
 		posAfterWrite = db.Pos()
@@ -116,8 +124,8 @@ func VerifC19Proxy() {
 			}
 		} else {
 			rt.Check(upstream == 1, "on the primary writes go to the application")
-			if !isRead && tracked {
-				rt.Check(setCookie != nil && setCookie.Name == TXIDCookieName, "a write on the primary issues the TXID cookie")
+			if !isRead && (tracked || createdByWrite) {
+				rt.Check(setCookie != nil && setCookie.Name == TXIDCookieName, "a write on the primary issues the TXID cookie (also when that write created the tracked database)")
 				if setCookie != nil {
 					rt.Check(setCookie.Value == posAfterWrite.TXID.String(), "the cookie names the position at or after the write")
 				}
